@@ -30,6 +30,13 @@ SILENT = [
     {'id': 'S-attr-locals', 'what': 'bind attributes that are only assigned '
      'in constructors to locals at the top of every method that reads them '
      'more than once'},
+    {'id': 'S-pop-to-del', 'what': 'X.pop(k) as a statement -> del X[k]'},
+    {'id': 'S-key-constants', 'what': 'string literals used as subscript / '
+     'dict-display / .get keys become module-level named constants'},
+    {'id': 'S-extract-tail', 'what': 'extract method: the second half of '
+     'every function with four or more top-level statements becomes a new '
+     'private helper called in return position (live locals passed as '
+     'arguments)'},
 ]
 
 
@@ -669,3 +676,174 @@ def _inline_helper(tree, cname, hname):
     cls.body.remove(callee)
     ast.fix_missing_locations(tree)
     return 1
+
+
+class _PopToDel(ast.NodeTransformer):
+    n = 0
+
+    def visit_Expr(self, st):
+        c = st.value
+        if isinstance(c, ast.Call) and isinstance(c.func, ast.Attribute) \
+                and c.func.attr == 'pop' and len(c.args) == 1 and \
+                not c.keywords and not isinstance(c.args[0], ast.Starred):
+            self.n += 1
+            return ast.copy_location(ast.Delete(targets=[ast.Subscript(
+                value=c.func.value, slice=c.args[0], ctx=ast.Del())]), st)
+        return st
+
+
+def _t_pop_to_del(tree, fn):
+    t = _PopToDel()
+    t.visit(tree)
+    ast.fix_missing_locations(tree)
+    return t.n
+
+
+def _t_key_constants(tree, fn):
+    import re
+    keys = {}
+
+    def name_of(v):
+        return '_KEY_' + re.sub(r'[^A-Za-z0-9]', '_', v).upper()
+
+    def want(c):
+        return isinstance(c, ast.Constant) and isinstance(c.value, str) and \
+            re.fullmatch(r'[A-Za-z][A-Za-z0-9_]*', c.value)
+    sites = []
+    for f in ast.walk(tree):
+        if not isinstance(f, ast.FunctionDef):
+            continue
+        for n in ast.walk(f):
+            if isinstance(n, ast.Subscript) and want(n.slice):
+                sites.append((n, 'slice', None))
+            elif isinstance(n, ast.Dict):
+                for i, k in enumerate(n.keys):
+                    if k is not None and want(k):
+                        sites.append((n.keys, i, None))
+            elif isinstance(n, ast.Call) and isinstance(
+                    n.func, ast.Attribute) and n.func.attr in (
+                        'get', 'pop', 'setdefault') and n.args and \
+                    want(n.args[0]):
+                sites.append((n.args, 0, None))
+    for holder, k, _ in sites:
+        c = getattr(holder, k) if isinstance(k, str) else holder[k]
+        keys[c.value] = name_of(c.value)
+        new = ast.copy_location(ast.Name(id=keys[c.value], ctx=ast.Load()),
+                                c)
+        if isinstance(k, str):
+            setattr(holder, k, new)
+        else:
+            holder[k] = new
+    if not keys:
+        return 0
+    # after the imports / docstring
+    at = 0
+    for i, st in enumerate(tree.body):
+        if isinstance(st, (ast.Import, ast.ImportFrom)) or (
+                isinstance(st, ast.Expr) and isinstance(
+                    st.value, ast.Constant)):
+            at = i + 1
+    tree.body[at:at] = [ast.Assign(
+        targets=[ast.Name(id=nm, ctx=ast.Store())],
+        value=ast.Constant(value=v), lineno=1)
+        for v, nm in sorted(keys.items())]
+    ast.fix_missing_locations(tree)
+    return len(sites)
+
+
+def _t_extract_tail(tree, fn):
+    n = 0
+    for owner in [tree] + [c for c in tree.body
+                           if isinstance(c, ast.ClassDef)]:
+        new_defs = []
+        for f in list(owner.body):
+            if not isinstance(f, ast.FunctionDef) or f.name.startswith('__'):
+                continue
+            if any(isinstance(x, (ast.Yield, ast.YieldFrom, ast.Lambda,
+                                  ast.Global, ast.Nonlocal, ast.NamedExpr))
+                   for x in ast.walk(f)) or any(
+                    isinstance(x, (ast.FunctionDef, ast.ClassDef)) and
+                    x is not f for x in ast.walk(f)):
+                continue
+            decos = [d.id for d in f.decorator_list
+                     if isinstance(d, ast.Name)]
+            if len(decos) != len(f.decorator_list) or any(
+                    d != 'staticmethod' for d in decos):
+                continue
+            a = f.args
+            if a.vararg or a.kwarg or a.kwonlyargs or a.posonlyargs:
+                continue
+            body = f.body
+            doc = 1 if (body and isinstance(body[0], ast.Expr) and
+                        isinstance(body[0].value, ast.Constant) and
+                        isinstance(body[0].value.value, str)) else 0
+            core = body[doc:]
+            if len(core) < 4:
+                continue
+            cut = len(core) // 2
+            head, tail = core[:cut], core[cut:]
+            params = [x.arg for x in a.args]
+            is_cls = isinstance(owner, ast.ClassDef)
+            is_static = 'staticmethod' in decos or not is_cls
+            self_name = None if is_static else params[0]
+            # names bound unconditionally at top level of the head
+            sure = set(params)
+            for st in head:
+                if isinstance(st, ast.Assign):
+                    for t in st.targets:
+                        for x in ast.walk(t):
+                            if isinstance(x, ast.Name):
+                                sure.add(x.id)
+                elif isinstance(st, ast.With):
+                    pass
+            head_stores = {x.id for st in head for x in ast.walk(st)
+                           if isinstance(x, ast.Name) and isinstance(
+                               x.ctx, (ast.Store, ast.Del))}
+            head_stores |= {h.name for st in head for h in ast.walk(st)
+                            if isinstance(h, ast.ExceptHandler) and h.name}
+            loads = []
+            for st in tail:
+                for x in ast.walk(st):
+                    if isinstance(x, ast.Name) and isinstance(
+                            x.ctx, ast.Load) and x.id not in loads:
+                        loads.append(x.id)
+            # comprehension variables are not free variables
+            passed = [v for v in loads
+                      if (v in head_stores or v in params) and
+                      v != self_name]
+            if any(v not in sure for v in passed):
+                continue
+            # a tail that stores to a passed name before reading is fine
+            hname = '_tail_of_' + f.name.lstrip('_')
+            hargs = ([ast.arg(arg=self_name)] if self_name else []) + [
+                ast.arg(arg=v) for v in passed]
+            helper = ast.FunctionDef(
+                name=hname, args=ast.arguments(
+                    posonlyargs=[], args=hargs, kwonlyargs=[],
+                    kw_defaults=[], defaults=[]),
+                body=tail, decorator_list=(
+                    [ast.Name(id='staticmethod', ctx=ast.Load())]
+                    if (is_static and is_cls) else []),
+                returns=None, type_comment=None, type_params=[],
+                lineno=tail[0].lineno)
+            if self_name:
+                func = ast.Attribute(value=ast.Name(id=self_name,
+                                                    ctx=ast.Load()),
+                                     attr=hname, ctx=ast.Load())
+            elif is_cls:
+                func = ast.Attribute(value=ast.Name(id=owner.name,
+                                                    ctx=ast.Load()),
+                                     attr=hname, ctx=ast.Load())
+            else:
+                func = ast.Name(id=hname, ctx=ast.Load())
+            call = ast.Call(func=func, args=[
+                ast.Name(id=v, ctx=ast.Load()) for v in passed], keywords=[])
+            f.body = body[:doc] + head + [ast.Return(value=call,
+                                                     lineno=tail[0].lineno)]
+            new_defs.append((f, helper))
+            n += 1
+        for f, helper in new_defs:
+            i = owner.body.index(f)
+            owner.body.insert(i + 1, helper)
+    ast.fix_missing_locations(tree)
+    return n
